@@ -1,1 +1,15 @@
 from .manifest import check, NOT_YET
+
+TB = ("Trusted: TLC/SANY (and Apalache where named), the JSON<->TLA+ value mapping, the projection code in harness/vt "
+      "(no oracle: it drives the API and projects objects), CPython/sqlite3 of /venv, and that the declarative layer "
+      "of the module is a faithful reading of the property text. ")
+
+check("C12",
+      "Bins.tla transcribes bins.bins (algorithmic layer) and states the property from bin extents (declarative layer). "
+      "Apalache proves containment, tightness, set completeness/nearness, the out-of-range rule and the index lemma "
+      "(single bin of one interval is in the bin set of any overlapping interval) for ALL coordinates -4..2^29+4; TLC checks the same "
+      "invariants exhaustively on every pair of boundary coordinates and generates them as cases. Every case and 2*10^4 (quick) / 2*10^5 "
+      "(thorough) random pairs are executed on the code (bins.bins both forms, Feature.bin, stored bin column) and judged by Trace_Bins.",
+      TB + "TLC integers are 32-bit, so coordinates stay below 2^31.",
+      "TLA+ spec (Bins/BinsX) + Apalache lemmas for all coordinates + TLC boundary enumeration + trace validation of real calls (Trace_Bins)",
+      engine="tlc+apalache")
